@@ -96,6 +96,10 @@ func (m Manifest) IsValid([]byte) error {
 		return e.Wrap(err)
 	}
 
+	if m.h == nil || !m.h.Equal(m.generateHash()) {
+		return e.Errorf("wrong hash")
+	}
+
 	return nil
 }
 
